@@ -34,6 +34,9 @@ pub struct Spec {
     /// PROXY protocol enabled: every client announces a source first (at point 0 the header is still outstanding)
     #[serde(default)]
     proxy: bool,
+    /// the in-flight connection keeps waiting for its backend this long (real time) after the stop
+    #[serde(default)]
+    drain_ms: u64,
 }
 
 struct InFlight {
@@ -164,6 +167,13 @@ fn run_schedule_once(spec: &Spec) -> Option<Vec<(String, String)>> {
                 Err(_) => v.push(("shutdown-not-bounded-by-connection-timeout".into(), format!("a non-cooperating client at '{}' kept listen() from returning for more than timeout + 2 s", point_name(spec.proxy, spec.a)))),
             }
             return Some(v);
+        }
+        if spec.drain_ms > 0 {
+            // the backend stays slow: the drain has to last (the connection timeout is 30 s)
+            tokio::time::sleep(Duration::from_millis(spec.drain_ms)).await;
+            if finished(&done) {
+                v.push(("listener-returned-with-connections-in-flight".into(), format!("listen() returned during a drain of {} ms although A ({}) is still waiting for its backend and the connection timeout is {timeout:?}", spec.drain_ms, point_name(spec.proxy, spec.a))));
+            }
         }
         // ---- drive A to completion (cooperating); the slow backend answers everybody from now on
         gate.add_permits(2);
@@ -309,12 +319,12 @@ pub fn run(cli: Cli) -> ! {
     let mut specs = vec![];
     for a in 0..7 {
         for m in 0..3 {
-            specs.push(Spec { a, b: usize::MAX, new_conn_at: m, a_stalls: false, via_start: false, proxy: false });
-            specs.push(Spec { a, b: a, new_conn_at: m, a_stalls: false, via_start: false, proxy: false });
+            specs.push(Spec { a, b: usize::MAX, new_conn_at: m, a_stalls: false, via_start: false, proxy: false, drain_ms: 0 });
+            specs.push(Spec { a, b: a, new_conn_at: m, a_stalls: false, via_start: false, proxy: false, drain_ms: 0 });
             if thorough {
                 for b in 0..7 {
                     if b != a {
-                        specs.push(Spec { a, b, new_conn_at: m, a_stalls: false, via_start: false, proxy: false });
+                        specs.push(Spec { a, b, new_conn_at: m, a_stalls: false, via_start: false, proxy: false, drain_ms: 0 });
                     }
                 }
             }
@@ -322,7 +332,7 @@ pub fn run(cli: Cli) -> ! {
     }
     if !thorough {
         for (a, b) in [(0, 6), (6, 0), (5, 2), (3, 5)] {
-            specs.push(Spec { a, b, new_conn_at: 1, a_stalls: false, via_start: false, proxy: false });
+            specs.push(Spec { a, b, new_conn_at: 1, a_stalls: false, via_start: false, proxy: false, drain_ms: 0 });
         }
     }
     // the same placements with PROXY protocol enabled (point 0 = accepted, header still outstanding)
@@ -333,16 +343,19 @@ pub fn run(cli: Cli) -> ! {
         }
     }
     for a in [0, 3, 5] {
-        specs.push(Spec { a, b: usize::MAX, new_conn_at: 0, a_stalls: true, via_start: false, proxy: false });
+        specs.push(Spec { a, b: usize::MAX, new_conn_at: 0, a_stalls: true, via_start: false, proxy: false, drain_ms: 0 });
     }
-    specs.push(Spec { a: 0, b: usize::MAX, new_conn_at: 0, a_stalls: true, via_start: false, proxy: true });
+    specs.push(Spec { a: 0, b: usize::MAX, new_conn_at: 0, a_stalls: true, via_start: false, proxy: true, drain_ms: 0 });
     for a in [0, 2, 4] {
-        specs.push(Spec { a, b: usize::MAX, new_conn_at: 0, a_stalls: false, via_start: true, proxy: false });
+        specs.push(Spec { a, b: usize::MAX, new_conn_at: 0, a_stalls: false, via_start: true, proxy: false, drain_ms: 0 });
     }
+    // a drain that lasts longer than any built-in default (10 s): the configured timeout (30 s) is what bounds it
+    specs.push(Spec { a: 5, b: usize::MAX, new_conn_at: 1, a_stalls: false, via_start: false, proxy: false, drain_ms: 11_500 });
     let two = AtomicU64::new(0);
     par_for(specs.len(), |i| {
         // the slow schedules are at the end of the list; start them first
         let s = &specs[specs.len() - 1 - i];
+        let _ = &s.drain_ms;
         if s.b != usize::MAX {
             two.fetch_add(1, Ordering::Relaxed);
         }
